@@ -27,6 +27,9 @@ type c04Case struct {
 func callValidateTOTP(c c04Case) (ok bool, err error, panicked string) {
 	nsecs := []int64{0, 1, 500000000, 999999999}
 	ic := c02Case{Unix: c.Unix, Nsec: nsecs[c.Var%4], Loc: (c.Var / 4) % 4, Mono: c.Var >= 16}
+	if c.Var >= 100 { // 100+i: the instant carried in zone i of c02Locs (real zones with daylight saving)
+		ic = c02Case{Unix: c.Unix, Loc: (c.Var - 100) % len(c02Locs)}
+	}
 	t, good := ic.instant()
 	if !good {
 		ic.Mono = false
@@ -261,6 +264,27 @@ func c04(r *ev.Run, pairMode bool) {
 		}
 		r.Eval(local)
 	})
+	// real time zones: every half hour of a year in each zone (across daylight-saving transitions): the code of
+	// the instant's own step validates, the code two steps away does not
+	{
+		key := keys[0]
+		sec := spellings(key)[0]
+		ev.Par(len(c02Locs), func(li int) {
+			var local int64
+			for t := int64(1672531200); t < 1672531200+366*86400; t += 1800 { // from 2023-01-01 UTC
+				for k, dist := range []uint64{0, 2} {
+					c := c04Case{sec, ref.HOTP(key, ref.Step(t, 30)+dist, 6, 0), t, 100 + li, 30, 1, 6, 0, false}
+					obs, bad := totpValidate(c, key, nil, pairMode)
+					local++
+					if bad != "" {
+						r.Fail(scen, fmt.Sprintf("zone %s t=%d (code of step %+d): %s", c02Locs[li], t, k*2, bad), c, bad, obs)
+						return
+					}
+				}
+			}
+			r.Eval(local)
+		})
+	}
 	// complete code space for small code lengths
 	var sps []cfg
 	for d := 1; d <= 4; d++ {
